@@ -1,9 +1,11 @@
 package props
 
 import (
+	"bytes"
 	"fmt"
 	"math"
 	"math/big"
+	"sort"
 	"testing"
 
 	"github.com/yaricom/goNEAT/v4/experiment"
@@ -256,6 +258,15 @@ type C19Exp struct {
 	// public, documented cache field); then their Generations field received the record under check, as Trial.Decode does
 	// with a trial variable that is used again
 	Reused bool `json:"trial_values_used_before,omitempty"`
+	// ViaRead: the record under check reaches the experiment value through Write and Read, and the value that reads it held a
+	// longer record of other winners before and was asked for every statistic (the winner statistics included, through the
+	// stored trial values): whatever it remembers belongs to the old record - the reader is the library's own code
+	ViaRead bool `json:"read_into_used_experiment,omitempty"`
+	// SortBetween: between the two comparison passes every trial's generations are sorted in place (Generations is a
+	// sort.Interface, by execution time, then id); the second pass compares with the aggregates recomputed from the
+	// generations in that order. Only applied when no trial has two solved generations or two generations with the same
+	// execution time and id (the winner, and the order, would depend on the sort's tie handling)
+	SortBetween bool `json:"sort_between_passes,omitempty"`
 }
 
 // expAccessors: every accessor of the experiment and of its trials, as calls whose results are discarded
@@ -302,6 +313,8 @@ func genC19Exp() *rapid.Generator[C19Exp] {
 			c.Receiver = rapid.IntRange(1, 3).Draw(t, "receiver kind")
 		}
 		c.Reused = rapid.IntRange(0, 3).Draw(t, "trial values used before") == 0
+		c.ViaRead = rapid.IntRange(0, 3).Draw(t, "read into a used experiment") == 0
+		c.SortBetween = rapid.IntRange(0, 2).Draw(t, "sort between the passes") == 0
 		return c
 	})
 }
@@ -368,6 +381,50 @@ func CheckC19Exp(c C19Exp, rec *Rec) (err error) {
 		e = used
 		rec.Class("trial values that held another record before")
 	}
+	if c.ViaRead {
+		var buf bytes.Buffer
+		if werr := e.Write(&buf); werr != nil {
+			rec.Class("record can not be written (left to C15)")
+		} else {
+			longer := c.Exp
+			longer.Trials = append(append([]TrialSpec{}, c.Exp.Trials...), c.Exp.Trials...)
+			for i := range longer.Trials {
+				gs := append([]GenSpec{}, longer.Trials[i].Generations...)
+				for j := range gs {
+					gs[j].WinnerNodes, gs[j].WinnerGenes, gs[j].WinnerEvals, gs[j].Diversity = gs[j].WinnerNodes+1000, gs[j].WinnerGenes+2000, gs[j].WinnerEvals+3000, gs[j].Diversity+7
+					if (i+j)%3 != 1 {
+						gs[j].Solved = !gs[j].Solved
+					}
+				}
+				longer.Trials[i].Generations = gs
+			}
+			holder := longer.Build()
+			if _, err := call("accessors of the record held before", func() int {
+				for _, a := range expAccessors {
+					a(holder)
+				}
+				return 0
+			}); err != nil {
+				return err
+			}
+			if rerr := holder.Read(bytes.NewReader(buf.Bytes())); rerr != nil {
+				rec.Class("record can not be read back (left to C15)")
+			} else {
+				e = holder
+				rec.Class("record read into an experiment that held other winners and was asked about them")
+				// the encoding has no place for the species reference of a champion: the restored record holds champions without one
+				stripped := append([]TrialSpec{}, c.Exp.Trials...)
+				for i := range stripped {
+					gs := append([]GenSpec{}, stripped[i].Generations...)
+					for j := range gs {
+						gs[j].Champion.SpeciesAge = 0
+					}
+					stripped[i].Generations = gs
+				}
+				c.Exp.Trials = stripped
+			}
+		}
+	}
 	for _, w := range c.Warm {
 		if _, err := call("accessor", func() int { expAccessors[w%len(expAccessors)](e); return 0 }); err != nil {
 			return fmt.Errorf("warm-up call %d: %v", w, err)
@@ -378,10 +435,55 @@ func CheckC19Exp(c C19Exp, rec *Rec) (err error) {
 	if err := checkExpPass(e, c, rec); err != nil {
 		return err
 	}
-	if err := checkExpPass(e, c, newRec()); err != nil {
+	c2 := c
+	if c.SortBetween && sortableRecord(c.Exp) {
+		c2.Exp.Trials = append([]TrialSpec{}, c.Exp.Trials...)
+		for i := range c2.Exp.Trials {
+			gs := append([]GenSpec{}, c2.Exp.Trials[i].Generations...)
+			sort.SliceStable(gs, func(a, b int) bool {
+				if gs[a].ExecutedNs != gs[b].ExecutedNs {
+					return gs[a].ExecutedNs < gs[b].ExecutedNs
+				}
+				return gs[a].Id < gs[b].Id
+			})
+			c2.Exp.Trials[i].Generations = gs
+		}
+		if _, err := call("sort.Sort(Generations)", func() int {
+			for i := range e.Trials {
+				sort.Sort(e.Trials[i].Generations)
+			}
+			return 0
+		}); err != nil {
+			return err
+		}
+		rec.Class("generations sorted in place between the two passes")
+	}
+	if err := checkExpPass(e, c2, newRec()); err != nil {
 		return fmt.Errorf("second evaluation of the accessors on the same experiment: %v", err)
 	}
 	return nil
+}
+
+// sortableRecord: sorting the generations of a trial has one outcome, and the winner does not depend on the order.
+func sortableRecord(s ExpSpec) bool {
+	for _, t := range s.Trials {
+		solved := 0
+		seen := map[[2]int64]bool{}
+		for _, g := range t.Generations {
+			if g.Solved {
+				solved++
+			}
+			k := [2]int64{g.ExecutedNs, int64(g.Id)}
+			if seen[k] {
+				return false
+			}
+			seen[k] = true
+		}
+		if solved > 1 {
+			return false
+		}
+	}
+	return true
 }
 
 func checkExpPass(e *experiment.Experiment, c C19Exp, rec *Rec) (err error) {
